@@ -48,7 +48,7 @@ pub open spec fn opt_deref<'a>(o: Option<&'a LanguageParser>) -> Option<Language
         r matches Some(p) ==> base_name(*file_path) is Some && exists|j: int| // [B6.post.first_mapping_candidate]
             #[trigger] first_mapping_candidate(base_name(*file_path).unwrap(), parsers@, extra_file_extensions@, j, *p),
         r is None <==> (base_name(*file_path) matches Some(name) ==> no_candidate_maps(name, parsers@, extra_file_extensions@)), // [B6.post.none_iff_no_candidate_maps]
-//@edit rule=ghost after=<<let file_name = file_path.file_name()?.to_str()?;>>
+//@edit rule=ghost before=<<for (i, _) in>>
     let ghost name = file_name@;
     let ghost dots = char_positions(name, '.');
     let ghost cands = candidates(name);
@@ -66,7 +66,11 @@ pub open spec fn opt_deref<'a>(o: Option<&'a LanguageParser>) -> Option<Language
             assert(first_mapping_candidate(name, parsers@, extra_file_extensions@, h, p));
         }
     }
-//@chain rule=E13 find=<<.file_name()?.to_str(>> to=verif_path_base_name
+//@edit rule=E13 find=<<$a.file_name()?.to_string_lossy()>> optional=1
+verif_path_base_name_lossy($a)?
+//@chain rule=E13 find=<<.file_name()?.to_str(>> to=verif_path_base_name optional=1
+//@edit rule=E13 find=<<file_name.as_ref()>> optional=1
+file_name.as_str()
 //@chain rule=E13 find=<<.match_indices(>> to=verif_match_indices_char optional=1
 //@chain rule=E13 find=<<.rev(>> to=verif_iter_rev optional=1
 //@edit rule=E15 find=<<for (i, _) in>>
